@@ -168,10 +168,6 @@ theorem encodeParts_range {p : Parts} {r sb : Bool} {root bass : Int} {bm : List
 
 /-! ### encode on arbitrary strings -/
 
-theorem pyEncode_newline_sentinels (r sb : Bool) :
-    pyEncode ['N', '\n'] r sb = .error .invalidChord ∧ pyEncode ['X', '\n'] r sb = .error .invalidChord := by
-  cases r <;> cases sb <;> exact ⟨rfl, rfl⟩
-
 theorem head_of_prefix {a : Str} {c : Char} {cs : Str} (h : a <+: c :: cs) :
     a = [] ∨ ∃ as, a = c :: as := by
   cases a with
@@ -200,42 +196,16 @@ theorem pyEncode_total (s : Str) (r sb : Bool) :
           rcases pyValidate_total s with hv | hv
           · exact hv
           · rw [hv] at hp; simp at hp
-        rcases (reMatch_iff s).1 hacc with ⟨l, rfl⟩ | ⟨l, rfl⟩
-        · match l with
-          | .N => exact absurd rfl hN
-          | .X => exact absurd rfl hX
-          | .chord L a body bass =>
-            apply encodeParts_total
-            obtain ⟨v, hv⟩ := letter_in_pitchClasses L
-            rcases head_of_prefix hpre with h | ⟨as, h⟩
-            · left; exact h
-            · right; exact ⟨_, _, v, h, hv⟩
-        · match l with
-          | .N =>
-            have := (pyEncode_newline_sentinels r sb).1
-            unfold pyEncode at this
-            have hN' : (['N', '\n'] : Str) ≠ Tables.noChord := by decide
-            have hX' : (['N', '\n'] : Str) ≠ Tables.xChord := by decide
-            simp only [if_neg hN', if_neg hX'] at this
-            have hp' : pySplit ['N', '\n'] r = .ok p := hp
-            rw [hp'] at this
-            right; exact this
-          | .X =>
-            have := (pyEncode_newline_sentinels r sb).2
-            unfold pyEncode at this
-            have hN' : (['X', '\n'] : Str) ≠ Tables.noChord := by decide
-            have hX' : (['X', '\n'] : Str) ≠ Tables.xChord := by decide
-            simp only [if_neg hN', if_neg hX'] at this
-            have hp' : pySplit ['X', '\n'] r = .ok p := hp
-            rw [hp'] at this
-            right; exact this
-          | .chord L a body bass =>
-            apply encodeParts_total
-            obtain ⟨v, hv⟩ := letter_in_pitchClasses L
-            simp only [Label.render, List.cons_append] at hpre
-            rcases head_of_prefix hpre with h | ⟨as, h⟩
-            · left; exact h
-            · right; exact ⟨_, _, v, h, hv⟩
+        obtain ⟨l, rfl⟩ := (reMatch_iff s).1 hacc
+        match l with
+        | .N => exact absurd rfl hN
+        | .X => exact absurd rfl hX
+        | .chord L a body bass =>
+          apply encodeParts_total
+          obtain ⟨v, hv⟩ := letter_in_pitchClasses L
+          rcases head_of_prefix hpre with h | ⟨as, h⟩
+          · left; exact h
+          · right; exact ⟨_, _, v, h, hv⟩
       · simp only [he]; right; trivial
 
 theorem pyEncode_range {s : Str} {r sb : Bool} {root bass : Int} {bm : List Int}
